@@ -55,7 +55,7 @@ def run(chk):
     # ---------------------------------------------------------------- R15-table
     fids = [f for f in scope if prog.bodies[f].file == "a2lfile/src/sort.rs"]
     diag.compare(chk, "R15-table", "sort", sortrules.sort_table(prog, fids), "uid updates reachable from sort::sort_new_items with their control predicates, compared with the reviewed table", floor=15,
-                 fn_filter=lambda fn: fn in {mir.strip_generics(f) for f in fids})
+                 fn_filter=lambda fn: fn in {re.sub(r"\{closure#\d+\}", "{closure}", mir.strip_generics(f)) for f in fids} or fn.split("::{closure}")[0] in {mir.strip_generics(f) for f in fids})
     # ---------------------------------------------------------------- R15-stable
     n = 0
     for fid, b in prog.bodies.items():
